@@ -118,6 +118,12 @@ def explore(run, tier):
                 v = iu.text(rng, 'latin_1', rng.randrange(0, 700))
             ents.append((t, v))
         cases.append(mk(rng, 'pkg', codecs3[n % 3], ents))
+    # MANY sub-elements with empty (or one-character) values in one carrier: 9 .. 140 of them
+    for count in (8, 9, 10, 17, 60, 140):
+        for codec in codecs3:
+            tags = rng.sample(range(0, 10000), count)
+            cases.append(mk(rng, 'pkg', codec, [(t, '') for t in tags]))
+            cases.append(mk(rng, 'pkg', codec, [(t, 'x' if i % 5 == 0 else '') for i, t in enumerate(tags)]))
     for codec in codecs3:
         for ch in ('\u20ac', '\u0141', '\u3042'):
             c = mk(rng, 'pkg', codec, [(23, 'ab' + ch + 'cd'), (158, 'plain')])
